@@ -260,10 +260,19 @@ def m_truncate(ex, st, c):
         if not n.conc: raise Unsupported('truncate symbolic')
         ex.store(st, c.args[0], Vec(a.items[:n.v])); return UNIT
     ln = a.length()
+    # String::truncate panics when the new length is not on a char boundary (only possible with non-ASCII text in the domain)
+    ncb = False
+    if c.callee.startswith('String') and getattr(ex, 'allow_non_ascii', False):
+        ncb = b_and(bv_ult(n.v, ln, LW), not_char_boundary(ex, a, n.v))
     if n.conc and isinstance(ln, int):
-        ex.store(st, c.args[0], a.substr(0, min(n.v, ln))); return UNIT
-    keep = ite_bv(bv_ult(n.v, ln, LW), n.v, ln, LW)
-    ex.store(st, c.args[0], a.substr(0, keep)); return UNIT
+        res = a.substr(0, min(n.v, ln))
+    else:
+        keep = ite_bv(bv_ult(n.v, ln, LW), n.v, ln, LW)
+        res = a.substr(0, keep)
+    if ncb is False:
+        ex.store(st, c.args[0], res); return UNIT
+    if ncb is True: return Panic('assertion failed: self.is_char_boundary(new_len)')
+    return ForkStore([(ncb, Panic('assertion failed: self.is_char_boundary(new_len)'), None), (b_not(ncb), UNIT, (c.args[0], res))])
 
 
 # ------------------------------------------------------------------ equality
